@@ -1,21 +1,21 @@
-SPECIFICATION GSpec
+SPECIFICATION CSpec
 CHECK_DEADLOCK FALSE
 CONSTANTS
   Kind = "tcp"
   KeepAlive = TRUE
-  Retries = 4
+  Retries = 1
   T = 4
-  CT = 20
+  CT = 40
   NCallers = 1
-  NReq = 3
+  NReq = 2
   Faults <- FaultsFull
-  ConnOuts = {"ok", "refused", "hang"}
-  MaxConnFail = 2
+  ConnOuts = {"ok"}
+  MaxConnFail = 99
   Offsets = {0}
-  Gaps = {0, 1, 2, 5}
+  Gaps = {0, 2}
   Strict = TRUE
   Horizon = 4000
   Fx <- FxAll
   Assume = FALSE
-  CancelAts = {}
-INVARIANT GNoViolation
+  CancelAts = {2, 5, 6}
+INVARIANT CNoViolation
